@@ -794,7 +794,7 @@ Proof.
 Qed.
 
 Lemma bs_hd_spec : forall c explicit digit_first (rest : list chr) s lk m w start,
-  hd0 rest = 10 \/ hd0 rest = 0 ->
+  hd0 rest = 10 \/ hd0 rest = 0 \/ hd0 rest = 32 \/ hd0 rest = 9 ->
   match explicit with Some d => (1 <= d <= 9)%nat | None => True end ->
   exists lk' w', (lk <= lk')%nat /\
   bs_hd (hd0 (hdr_chars c explicit digit_first ++ rest)) start (mv s (hdr_chars c explicit digit_first ++ rest) lk m w)
@@ -802,7 +802,7 @@ Lemma bs_hd_spec : forall c explicit digit_first (rest : list chr) s lk m w star
 Proof.
   intros c explicit digit_first rest s lk m w start Hr0 Hd.
   assert (Hr : is_digit (hd0 rest) = false /\ (hd0 rest =? 43) = false /\ (hd0 rest =? 45) = false).
-  { destruct Hr0 as [-> | ->]; repeat split. }
+  { destruct Hr0 as [-> | [-> | [-> | ->]]]; repeat split. }
   destruct Hr as [Hdig [H43 H45]].
   destruct explicit as [d|].
   - destruct (digit_facts d Hd) as [D1 [D2 [D3 [D4 [D5 D6]]]]]. cbn zeta in *.
@@ -873,6 +873,142 @@ Definition bs_finish (literal : bool) (chomp : chomping) (indent : N) (cstart : 
   m <- mark ;;
   ret ({| sp_start := cstart; sp_end := m |}, TScalar (if literal then Literal else Folded) (rev acc)).
 
+(* ------------------------------------------------------------------------------------------ *)
+(* the rest of the header line: white space and an optional comment                            *)
+(* ------------------------------------------------------------------------------------------ *)
+Lemma in_skip_mv s cs lk m w : in_skip str_ops (mv s cs lk m w) = Ok (tt, mv s (tl cs) lk m w).
+Proof. reflexivity. Qed.
+
+Section Comment.
+Variable kont : N -> MS (N * option (bool * bool)).
+Fixpoint ws_comment (f : nat) (k : N) : MS (N * option (bool * bool)) :=
+  match f with
+  | O => oof
+  | S f => c <- look_ch str_ops ;; if is_breakz c then kont (k + 1) else in_skip str_ops ;;; ws_comment f (k + 1)
+  end.
+End Comment.
+
+Lemma in_skip_ws_to_eol_eq fuel st tab ws n :
+  in_skip_ws_to_eol str_ops (S fuel) st tab ws n =
+  (c <- look_ch str_ops ;;
+   if c =? 32 then in_skip str_ops ;;; in_skip_ws_to_eol str_ops fuel st tab true (n + 1)
+   else if (c =? 9) && (match st with SkipYes => true | SkipNo => false end) then
+     in_skip str_ops ;;; in_skip_ws_to_eol str_ops fuel st true ws (n + 1)
+   else if c =? 35 then
+     if negb tab && negb ws then ret (n, None)
+     else in_skip str_ops ;;; ws_comment (in_skip_ws_to_eol str_ops fuel st tab ws) fuel n
+   else ret (n, Some (tab, ws))).
+Proof. reflexivity. Qed.
+
+Lemma ws_comment_spec kont : forall (txt R : list chr) f k s lk m w,
+  nobreak txt -> (length txt < f)%nat ->
+  ws_comment kont f k (mv s (txt ++ 10 :: R) lk m w)
+  = kont (k + N.of_nat (length txt) + 1) (mv s (10 :: R) (Nat.max lk 1) m w).
+Proof.
+  induction txt as [|c txt IH]; intros R f k s lk m w Hnb Hf; (destruct f as [|f]; [cbn in Hf; lia|]); cbn [ws_comment app].
+  - mstep ltac:(apply look_ch_mv). hd0c. change (is_breakz 10) with true. cbv match. cbn [length N.of_nat].
+    rewrite N.add_0_r. reflexivity.
+  - inversion Hnb as [|? ? Hc Hnb']; subst.
+    mstep ltac:(apply look_ch_mv). hd0c. rewrite Hc.
+    mstep ltac:(apply in_skip_mv). cbn [tl].
+    rewrite IH by (auto; cbn in Hf; lia).
+    replace (Nat.max (Nat.max lk 1) 1) with (Nat.max lk 1) by lia.
+    cbn [length]. f_equal. lia.
+Qed.
+
+Definition whites (wh : list chr) : Prop := Forall (fun c => c = 32 \/ c = 9) wh.
+
+(* white space: consumed, and remembered in one of the two flags *)
+Lemma ws_whites : forall (wh rest : list chr) fuel tab ws n s lk m w,
+  whites wh -> (length wh <= fuel)%nat ->
+  exists tab' ws', (wh <> [] -> tab' || ws' = true) /\ (wh = [] -> tab' = tab /\ ws' = ws) /\
+  in_skip_ws_to_eol str_ops (length wh + fuel) SkipYes tab ws n (mv s (wh ++ rest) lk m w)
+  = in_skip_ws_to_eol str_ops fuel SkipYes tab' ws' (n + N.of_nat (length wh))
+      (mv s rest (match wh with [] => lk | _ => Nat.max lk 1 end) m w).
+Proof.
+  induction wh as [|c wh IH]; intros rest fuel tab ws n s lk m w Hwh Hf.
+  - exists tab, ws. split; [congruence|]. split; [tauto|]. cbn [length app N.of_nat Nat.add]. rewrite N.add_0_r. reflexivity.
+  - inversion Hwh as [|? ? Hc Hwh']; subst. cbn [length Nat.add app]. rewrite in_skip_ws_to_eol_eq.
+    destruct Hc as [-> | ->].
+    + destruct (IH rest fuel tab true (n + 1) s (Nat.max lk 1) m w Hwh') as [tab' [ws' [H1 [H2 H3]]]]; [cbn [length] in Hf; lia|].
+      exists tab', ws'. split; [|split; [discriminate|]].
+      { intros _. destruct wh as [|c' wh']; [destruct (H2 eq_refl) as [-> ->]; apply orb_true_r|apply H1; discriminate]. }
+      mstep ltac:(apply look_ch_mv). hd0c. change (32 =? 32) with true. cbv match.
+      mstep ltac:(apply in_skip_mv). cbn [tl]. rewrite H3.
+      replace (match wh with [] => Nat.max lk 1 | _ :: _ => Nat.max (Nat.max lk 1) 1 end) with (Nat.max lk 1)
+        by (destruct wh; lia).
+      f_equal. lia.
+    + destruct (IH rest fuel true ws (n + 1) s (Nat.max lk 1) m w Hwh') as [tab' [ws' [H1 [H2 H3]]]]; [cbn [length] in Hf; lia|].
+      exists tab', ws'. split; [|split; [discriminate|]].
+      { intros _. destruct wh as [|c' wh']; [destruct (H2 eq_refl) as [-> ->]; reflexivity|apply H1; discriminate]. }
+      mstep ltac:(apply look_ch_mv). hd0c. change (9 =? 32) with false. change (9 =? 9) with true. cbv match. cbn [andb].
+      mstep ltac:(apply in_skip_mv). cbn [tl]. rewrite H3.
+      replace (match wh with [] => Nat.max lk 1 | _ :: _ => Nat.max (Nat.max lk 1) 1 end) with (Nat.max lk 1)
+        by (destruct wh; lia).
+      f_equal. lia.
+Qed.
+
+(* a header tail: white space, then nothing or a comment (which needs the white space in front) *)
+Inductive header_tail : list chr -> Prop :=
+| ht_white wh : whites wh -> header_tail wh
+| ht_comment wh txt : whites wh -> wh <> [] -> nobreak txt -> header_tail (wh ++ 35 :: txt).
+
+Lemma header_tail_nolf hc : header_tail hc -> Forall (fun c => c <> 10) hc.
+Proof.
+  assert (Hw : forall wh, whites wh -> Forall (fun c => c <> 10) wh).
+  { intros wh H. apply Forall_impl with (2 := H). intros c [-> | ->]; discriminate. }
+  intros [wh H|wh txt H _ Hnb]; [apply Hw; exact H|].
+  apply Forall_app. split; [apply Hw; exact H|]. constructor; [discriminate|]. apply nobreak_nolf. exact Hnb.
+Qed.
+
+Lemma skip_ws_to_eol_hc F (hc R : list chr) s lk m w :
+  header_tail hc -> (2 * length hc + 2 < F)%nat ->
+  exists tw lk', (lk <= lk')%nat /\
+  skip_ws_to_eol str_ops F SkipYes (mv s (hc ++ 10 :: R) lk m w) = Ok (tw, mv s (10 :: R) lk' (mark_after m hc) w).
+Proof.
+  intros Hhc HF. rewrite (mark_after_nolf _ (header_tail_nolf _ Hhc)). unfold skip_ws_to_eol.
+  destruct Hhc as [wh Hwh|wh txt Hwh Hne Hnb].
+  - replace F with (length wh + (F - length wh))%nat by lia.
+    destruct (ws_whites wh (10 :: R) (F - length wh) false false 0 s lk m w Hwh) as [tab' [ws' [_ [_ H3]]]]; [lia|].
+    set (lkw := match wh with [] => lk | _ :: _ => Nat.max lk 1 end) in *.
+    exists (tab', ws'), (Nat.max lkw 1). split; [subst lkw; destruct wh; lia|].
+    destruct (F - length wh)%nat as [|f] eqn:E; [lia|].
+    assert (Hrun : in_skip_ws_to_eol str_ops (S f) SkipYes tab' ws' (0 + N.of_nat (length wh)) (mv s (10 :: R) lkw m w)
+                   = Ok ((0 + N.of_nat (length wh), Some (tab', ws')), mv s (10 :: R) (Nat.max lkw 1) m w)).
+    { rewrite in_skip_ws_to_eol_eq. mstep ltac:(apply look_ch_mv). hd0c. evalb. reflexivity. }
+    mstep ltac:(exact (eq_trans H3 Hrun)).
+    cbn [fst snd]. mstep ltac:(apply adv_mark_mv). rewrite N.add_0_l. reflexivity.
+  - rewrite <- app_assoc. cbn [app]. rewrite app_length in HF. cbn [length] in HF.
+    replace F with (length wh + (F - length wh))%nat by lia.
+    destruct (ws_whites wh (35 :: txt ++ 10 :: R) (F - length wh) false false 0 s lk m w Hwh) as [tab' [ws' [H1 [_ H3]]]]; [lia|].
+    specialize (H1 Hne).
+    assert (Hflags : negb tab' && negb ws' = false) by (destruct tab', ws'; try reflexivity; discriminate).
+    set (lkw := match wh with [] => lk | _ :: _ => Nat.max lk 1 end) in *.
+    exists (tab', ws'), (Nat.max (Nat.max lkw 1) 1). split; [subst lkw; destruct wh; lia|].
+    destruct (F - length wh)%nat as [|[|f]] eqn:E; [lia|lia|].
+    assert (Hrun : in_skip_ws_to_eol str_ops (S (S f)) SkipYes tab' ws' (0 + N.of_nat (length wh)) (mv s (35 :: txt ++ 10 :: R) lkw m w)
+                   = Ok ((0 + N.of_nat (length wh) + N.of_nat (length txt) + 1, Some (tab', ws')),
+                         mv s (10 :: R) (Nat.max (Nat.max lkw 1) 1) m w)).
+    { rewrite in_skip_ws_to_eol_eq. mstep ltac:(apply look_ch_mv). hd0c. evalb. rewrite Hflags.
+      mstep ltac:(apply in_skip_mv). cbn [tl]. rewrite ws_comment_spec by (auto; lia).
+      rewrite in_skip_ws_to_eol_eq. mstep ltac:(apply look_ch_mv). hd0c. evalb.
+      replace (Nat.max (Nat.max (Nat.max lkw 1) 1) 1) with (Nat.max (Nat.max lkw 1) 1) by lia. reflexivity. }
+    mstep ltac:(exact (eq_trans H3 Hrun)).
+    cbn [fst snd]. mstep ltac:(apply adv_mark_mv). rewrite app_length. cbn [length].
+    replace (N.of_nat (length wh + S (length txt))) with (0 + N.of_nat (length wh) + N.of_nat (length txt) + 1) by lia.
+    reflexivity.
+Qed.
+
+Lemma header_tail_hd (hc B : list chr) : header_tail hc ->
+  hd0 (hc ++ 10 :: B) = 10 \/ hd0 (hc ++ 10 :: B) = 0 \/ hd0 (hc ++ 10 :: B) = 32 \/ hd0 (hc ++ 10 :: B) = 9.
+Proof.
+  assert (Hw : forall wh X, whites wh -> wh <> [] -> hd0 (wh ++ X) = 32 \/ hd0 (wh ++ X) = 9).
+  { intros wh X H Hne. destruct wh as [|c wh]; [congruence|]. inversion H as [|? ? Hc _]; subst. exact Hc. }
+  intros [wh H|wh txt H Hne _].
+  - destruct wh as [|c wh]; [left; reflexivity|]. right; right. apply Hw; [exact H|discriminate].
+  - right; right. rewrite <- app_assoc. apply Hw; assumption.
+Qed.
+
 (* scan_block_scalar from the first line after the header on, named ([start]: the mark of the indicator) *)
 Definition bs_main (F : nat) (literal : bool) (start : marker) (chomp : chomping) (increment : N) : MS token :=
   let style := if literal then Literal else Folded in
@@ -915,48 +1051,50 @@ Proof.
   destruct c, explicit as [d|], digit_first; cbn [hdr_chars app mark_after]; rewrite ?HD; reflexivity.
 Qed.
 
-(* the header line: indicators, then the line feed.  What remains is [bs_main] at the start of the next line. *)
+(* the header line: indicators, white space / comment, then the line feed.  What remains is [bs_main] at the start
+   of the next line. *)
 Lemma scan_header : forall (P : outcome (token * sc strin) -> Prop) (s : sc strin) F literal c (explicit : option nat)
-    (digit_first : bool) (BODY : list chr) pz inds,
-  si_chars (sc_in s) = header literal c explicit digit_first ++ 10 :: BODY ->
+    (digit_first : bool) (hc BODY : list chr) pz inds,
+  si_chars (sc_in s) = header literal c explicit digit_first ++ hc ++ 10 :: BODY ->
   unroll_nb (sc_indents s) (sc_indent s) = (pz, inds) ->
-  F <> O -> hd0 BODY <> 9 ->
+  header_tail hc -> (2 * length hc + 2 < F)%nat -> hd0 BODY <> 9 ->
   match explicit with Some d => (1 <= d <= 9)%nat | None => True end ->
   (forall lk1 mh, lk1 <> O -> m_col mh = 0 -> m_line mh = m_line (sc_mark s) + 1 ->
      P (bs_main F literal (sc_mark s) (to_model c) (inc_of explicit) (mv (set_indent pz inds s) BODY lk1 mh true))) ->
   P (scan_block_scalar str_ops F literal s).
 Proof.
-  intros P s F literal c explicit digit_first BODY pz inds Hchars Hun HF0 Htab Hd Hk.
+  intros P s F literal c explicit digit_first hc BODY pz inds Hchars Hun Hhc HF0 Htab Hd Hk.
   rewrite <- (mv_self s). rewrite Hchars. clear Hchars.
   rewrite header_hdr_chars. cbn [app].
   set (lk0 := si_look (sc_in s)). set (m0 := sc_mark s). set (w0 := sc_lws s).
-  assert (HF : exists F', F = S F') by (destruct F; [congruence|eexists; reflexivity]).
-  destruct HF as [F' HF].
   unfold scan_block_scalar.
   pstep ltac:(apply mark_mv). pstep ltac:(apply skip_non_blank_mv). cbn [tl].
   pstep ltac:(apply unroll_mv; exact Hun).
   pstep ltac:(apply look_ch_mv).
   set (s1 := set_indent pz inds s).
-  assert (HB : hd0 (10 :: BODY) = 10 \/ hd0 (10 :: BODY) = 0) by (left; reflexivity).
-  destruct (bs_hd_spec c explicit digit_first (10 :: BODY) s1 (Nat.max lk0 1) (adv 1 m0) false m0 HB Hd) as [lk1 [w1 [Hle1 Hhd]]].
-  match goal with |- P (bind ?blk ?k ?st) => change (P (bind (bs_hd (hd0 (hdr_chars c explicit digit_first ++ 10 :: BODY)) m0) k st)) end.
+  pose proof (header_tail_hd hc BODY Hhc) as HB.
+  destruct (bs_hd_spec c explicit digit_first (hc ++ 10 :: BODY) s1 (Nat.max lk0 1) (adv 1 m0) false m0 HB Hd) as [lk1 [w1 [Hle1 Hhd]]].
+  match goal with |- P (bind ?blk ?k ?st) => change (P (bind (bs_hd (hd0 (hdr_chars c explicit digit_first ++ hc ++ 10 :: BODY)) m0) k st)) end.
   pstep ltac:(exact Hhd).
-  pstep ltac:(rewrite HF; apply skip_ws_to_eol_lf). pstep ltac:(apply look_mv). pstep ltac:(apply peek_mv). hd0c.
+  destruct (skip_ws_to_eol_hc F hc BODY s1 lk1 (mark_after (adv 1 m0) (hdr_chars c explicit digit_first)) w1 Hhc HF0)
+    as [tw [lk2 [Hle2 Hws]]].
+  pstep ltac:(exact Hws). pstep ltac:(apply look_mv). pstep ltac:(apply peek_mv). hd0c.
   change (is_breakz 10) with true. change (is_break 10) with true. cbv match. cbn [negb].
   pstep ltac:(mstep ltac:(apply look_mv); mstep ltac:(apply skip_break_lf); reflexivity).
   pstep ltac:(apply look_ch_mv).
   destruct (N.eqb_spec (hd0 BODY) 9) as [E|_]; [contradiction|].
   apply Hk; [lia|reflexivity|].
-  cbn [nlm m_line]. rewrite hdr_line. reflexivity.
+  cbn [nlm m_line]. rewrite (mark_after_nolf _ (header_tail_nolf _ Hhc)). cbn [adv m_line]. rewrite hdr_line. reflexivity.
 Qed.
 
 (* From the indicator to the first content line: header, header line break, leading blank lines, indentation
    (given or detected).  What remains is the content loop at the first content character, and the tail.
    [TAIL] is what follows the first content line: nothing, or a line feed and more. *)
 Lemma scan_to_loop : forall (P : outcome (token * sc strin) -> Prop) (s : sc strin) F literal c (explicit : option nat)
-    (digit_first : bool) (ks1 : list nat) (e1 : nat) (txt1 TAIL : list chr) (n : nat) pz inds,
-  si_chars (sc_in s) = header literal c explicit digit_first ++ 10 :: blank_lines ks1 ++ sps (n + e1) ++ txt1 ++ TAIL ->
+    (digit_first : bool) (hc : list chr) (ks1 : list nat) (e1 : nat) (txt1 TAIL : list chr) (n : nat) pz inds,
+  si_chars (sc_in s) = header literal c explicit digit_first ++ hc ++ 10 :: blank_lines ks1 ++ sps (n + e1) ++ txt1 ++ TAIL ->
   unroll_nb (sc_indents s) (sc_indent s) = (pz, inds) ->
+  header_tail hc -> (2 * length hc + 2 < F)%nat ->
   n <> O -> chunk_ok F n (ks1, e1, txt1) -> (TAIL = [] \/ hd0 TAIL = 10) ->
   match explicit with
   | Some d => (1 <= d <= 9)%nat /\ N.of_nat n = (if (0 <=? pz)%Z then Z.to_N (pz + Z.of_N (N.of_nat d)) else N.of_nat d)
@@ -967,10 +1105,9 @@ Lemma scan_to_loop : forall (P : outcome (token * sc strin) -> Prop) (s : sc str
          bs_finish literal (to_model c) (N.of_nat n) m2 r) (mv s1 ((sps e1 ++ txt1) ++ TAIL) lk2 m2 true))) ->
   P (scan_block_scalar str_ops F literal s).
 Proof.
-  intros P s F literal c explicit digit_first ks1 e1 txt1 TAIL n pz inds Hchars Hun Hn Hc1 HT Hind Hk.
+  intros P s F literal c explicit digit_first hc ks1 e1 txt1 TAIL n pz inds Hchars Hun Hhc HFhc Hn Hc1 HT Hind Hk.
   destruct Hc1 as [Hks1 [Hnb1 [Hhd1 [Hne1 [Hks1F [Hks1L Hlen1]]]]]].
-  apply (scan_header P s F literal c explicit digit_first (blank_lines ks1 ++ sps (n + e1) ++ txt1 ++ TAIL) pz inds); auto.
-  { lia. }
+  apply (scan_header P s F literal c explicit digit_first hc (blank_lines ks1 ++ sps (n + e1) ++ txt1 ++ TAIL) pz inds); auto.
   { destruct ks1 as [|[|k0] ks1]; [destruct n; [congruence|]| |]; intro H; cbv in H; discriminate H. }
   { destruct explicit; tauto. }
   intros lk1 mh Hlk1 Hmh Hline.
@@ -1039,11 +1176,12 @@ Proof.
 Qed.
 
 (* every line terminated by a line feed, then a less indented line (or the end of the input) *)
-Theorem block_scalar_chunks : forall (s : sc strin) F literal c (explicit : option nat) (digit_first : bool)
+Theorem block_scalar_chunks : forall (s : sc strin) F literal c (explicit : option nat) (digit_first : bool) (hc : list chr)
     (ck : chunk) (chunks : list chunk) (tks : list nat) (j : nat) (r' : list chr) (n : nat) pz inds,
   let lines := flat_map chunk_lines (ck :: chunks) ++ map Blank tks in
-  si_chars (sc_in s) = render_block n literal c explicit digit_first [] lines (EofRest (sps j ++ r')) ->
+  si_chars (sc_in s) = render_block n literal c explicit digit_first hc lines (EofRest (sps j ++ r')) ->
   unroll_nb (sc_indents s) (sc_indent s) = (pz, inds) ->
+  header_tail hc -> (2 * length hc + 2 < F)%nat ->
   n <> O -> Forall (chunk_ok F n) (ck :: chunks) ->
   Forall (fun k => (k <= n)%nat) tks -> Forall (fun k => (k < F)%nat) tks -> (length tks < F)%nat ->
   (j < n)%nat -> hd0 r' <> 32 -> is_break (hd0 r') = false -> (S (length chunks) < F)%nat ->
@@ -1053,11 +1191,11 @@ Theorem block_scalar_chunks : forall (s : sc strin) F literal c (explicit : opti
   end ->
   yields literal (block_value literal c lines) r' (scan_block_scalar str_ops F literal s).
 Proof.
-  intros s F literal c explicit digit_first ck chunks tks j r' n pz inds lines Hchars Hun Hn Hch Htks HtksF HtksL Hj Hr Hrb HchL Hind.
+  intros s F literal c explicit digit_first hc ck chunks tks j r' n pz inds lines Hchars Hun Hhc HFhc Hn Hch Htks HtksF HtksL Hj Hr Hrb HchL Hind.
   destruct ck as [[ks1 e1] txt1].
   pose proof (Forall_inv Hch) as Hc1. pose proof (Forall_inv_tail Hch) as Hch'.
   set (REST := flat_map (chunk_text n) chunks ++ blank_lines tks ++ sps j ++ r').
-  apply (scan_to_loop _ s F literal c explicit digit_first ks1 e1 txt1 (10 :: REST) n pz inds); auto.
+  apply (scan_to_loop _ s F literal c explicit digit_first hc ks1 e1 txt1 (10 :: REST) n pz inds); auto.
   { rewrite Hchars. unfold render_block. cbn [app]. unfold lines. rewrite flat_map_shift, render_chunks.
     subst REST. cbn [flat_map chunk_text]. rewrite <- !app_assoc. reflexivity. }
   intros s1 lk2 m2 Hne2 Hcol2.
@@ -1199,11 +1337,12 @@ Proof.
   - cbn [app flat_map chunk_lines chunk_text]. rewrite flat_map_app, IH, H1. rewrite <- !app_assoc. reflexivity.
 Qed.
 
-Theorem block_scalar_chunks_eof : forall (s : sc strin) F literal c (explicit : option nat) (digit_first : bool)
+Theorem block_scalar_chunks_eof : forall (s : sc strin) F literal c (explicit : option nat) (digit_first : bool) (hc : list chr)
     (cs : list chunk) (cl : chunk) (n : nat) pz inds,
   let lines := flat_map chunk_lines (cs ++ [cl]) in
-  si_chars (sc_in s) = render_block n literal c explicit digit_first [] lines EofNone ->
+  si_chars (sc_in s) = render_block n literal c explicit digit_first hc lines EofNone ->
   unroll_nb (sc_indents s) (sc_indent s) = (pz, inds) ->
+  header_tail hc -> (2 * length hc + 2 < F)%nat ->
   n <> O -> Forall (chunk_ok F n) (cs ++ [cl]) -> (S (length cs) < F)%nat ->
   match explicit with
   | Some d => (1 <= d <= 9)%nat /\ N.of_nat n = (if (0 <=? pz)%Z then Z.to_N (pz + Z.of_N (N.of_nat d)) else N.of_nat d)
@@ -1211,7 +1350,7 @@ Theorem block_scalar_chunks_eof : forall (s : sc strin) F literal c (explicit : 
   end ->
   yields literal (block_value literal c lines) [] (scan_block_scalar str_ops F literal s).
 Proof.
-  intros s F literal c explicit digit_first cs cl n pz inds lines Hchars Hun Hn Hch HchL Hind.
+  intros s F literal c explicit digit_first hc cs cl n pz inds lines Hchars Hun Hhc HFhc Hn Hch HchL Hind.
   assert (Eval : block_value literal c lines =
                  rev (match to_model c with Keep => nls (N.of_nat 0) | _ => fun a => a end
                         (match to_model c with
@@ -1231,7 +1370,7 @@ Proof.
   - (* a single content line *)
     destruct cl as [[ks1 e1] txt1]. cbn [app flat_map chunk_text_nolf hd] in *.
     pose proof (Forall_inv Hch) as Hc1.
-    apply (scan_to_loop _ s F literal c explicit digit_first ks1 e1 txt1 [] n pz inds); auto.
+    apply (scan_to_loop _ s F literal c explicit digit_first hc ks1 e1 txt1 [] n pz inds); auto.
     { rewrite Hchars, !app_nil_r. reflexivity. }
     intros s1 lk2 m2 Hne2 Hcol2.
     destruct (chunk_content_facts _ _ _ _ _ Hc1) as [Hne' [Hnbt Hlen]].
@@ -1247,7 +1386,7 @@ Proof.
   - cbn [app flat_map hd] in *.
     pose proof (Forall_inv Hch) as Hc1. pose proof (Forall_inv_tail Hch) as Hch'.
     set (REST := flat_map (chunk_text n) cs ++ chunk_text_nolf n cl ++ []).
-    apply (scan_to_loop _ s F literal c explicit digit_first ks1 e1 txt1 (10 :: REST) n pz inds); auto.
+    apply (scan_to_loop _ s F literal c explicit digit_first hc ks1 e1 txt1 (10 :: REST) n pz inds); auto.
     { rewrite Hchars. subst REST. cbn [chunk_text]. rewrite <- !app_assoc, !app_nil_r. reflexivity. }
     intros s1 lk2 m2 Hne2 Hcol2.
     destruct (chunk_content_facts _ _ _ _ _ Hc1) as [Hne' [Hnbt Hlen]].
@@ -1344,10 +1483,11 @@ Qed.
 (* (T4) literal style, explicit or auto-detected indentation, any chomping: every list of content lines (of any extra
    indentation, whitespace-only content lines included) and blank lines, with at least one content line, each line
    terminated by a line feed, followed by a less indented line or the end of the input *)
-Theorem block_scalar_lines : forall (s : sc strin) F literal c (explicit : option nat) (digit_first : bool)
+Theorem block_scalar_lines : forall (s : sc strin) F literal c (explicit : option nat) (digit_first : bool) (hc : list chr)
     (lines : list bline) (j : nat) (r' : list chr) (n : nat) pz inds,
-  si_chars (sc_in s) = render_block n literal c explicit digit_first [] lines (EofRest (sps j ++ r')) ->
+  si_chars (sc_in s) = render_block n literal c explicit digit_first hc lines (EofRest (sps j ++ r')) ->
   unroll_nb (sc_indents s) (sc_indent s) = (pz, inds) ->
+  header_tail hc -> (2 * length hc + 2 < F)%nat ->
   n <> O -> Forall (line_ok F n) lines -> (S (length lines) < F)%nat -> has_text lines = true ->
   (j < n)%nat -> hd0 r' <> 32 -> is_break (hd0 r') = false -> (r' = [] -> j = O) ->
   match explicit with
@@ -1356,14 +1496,14 @@ Theorem block_scalar_lines : forall (s : sc strin) F literal c (explicit : optio
   end ->
   yields literal (block_value literal c lines) r' (scan_block_scalar str_ops F literal s).
 Proof.
-  intros s F literal c explicit digit_first lines j r' n pz inds Hchars Hun Hn Hls Hlen Htext Hj Hr Hrb _ Hind.
+  intros s F literal c explicit digit_first hc lines j r' n pz inds Hchars Hun Hhc HFhc Hn Hls Hlen Htext Hj Hr Hrb _ Hind.
   destruct (split_lines lines []) as [cs t] eqn:E.
   pose proof (split_lines_spec lines [] cs t E) as Hsp. cbn [rev map app] in Hsp.
   destruct (split_lines_ok F n lines [] cs t E Hls) as [Hcs [Ht1 [Ht2 [Ht3 Ht4]]]]; [constructor|cbn [length]; lia|].
   pose proof (split_lines_text lines [] Htext) as Hne. rewrite E in Hne. cbn [fst] in Hne.
   destruct cs as [|ck cs]; [congruence|].
   assert (Hft0 := Hind). rewrite Hsp in Hchars |- *.
-  apply (block_scalar_chunks s F literal c explicit digit_first ck cs t j r' n pz inds); auto.
+  apply (block_scalar_chunks s F literal c explicit digit_first hc ck cs t j r' n pz inds); auto.
   - cbn [length] in Ht4. lia.
   - destruct explicit as [d|]; [exact Hind|].
     destruct Hind as [Hpz [txt [Hft Htx]]]. split; [exact Hpz|].
@@ -1373,10 +1513,11 @@ Qed.
 
 
 (* the same without a final line break: the input ends right after the last content line *)
-Theorem block_scalar_lines_eof : forall (s : sc strin) F literal c (explicit : option nat) (digit_first : bool)
+Theorem block_scalar_lines_eof : forall (s : sc strin) F literal c (explicit : option nat) (digit_first : bool) (hc : list chr)
     (lines : list bline) (n : nat) pz inds,
-  si_chars (sc_in s) = render_block n literal c explicit digit_first [] lines EofNone ->
+  si_chars (sc_in s) = render_block n literal c explicit digit_first hc lines EofNone ->
   unroll_nb (sc_indents s) (sc_indent s) = (pz, inds) ->
+  header_tail hc -> (2 * length hc + 2 < F)%nat ->
   n <> O -> Forall (line_ok F n) lines -> (S (length lines) < F)%nat -> has_text lines = true ->
   trailing_blanks lines = O ->
   match explicit with
@@ -1385,7 +1526,7 @@ Theorem block_scalar_lines_eof : forall (s : sc strin) F literal c (explicit : o
   end ->
   yields literal (block_value literal c lines) [] (scan_block_scalar str_ops F literal s).
 Proof.
-  intros s F literal c explicit digit_first lines n pz inds Hchars Hun Hn Hls Hlen Htext Htb Hind.
+  intros s F literal c explicit digit_first hc lines n pz inds Hchars Hun Hhc HFhc Hn Hls Hlen Htext Htb Hind.
   destruct (split_lines lines []) as [cs t] eqn:E.
   pose proof (split_lines_spec lines [] cs t E) as Hsp. cbn [rev map app] in Hsp.
   destruct (split_lines_ok F n lines [] cs t E Hls) as [Hcs [Ht1 [Ht2 [Ht3 Ht4]]]]; [constructor|cbn [length]; lia|].
@@ -1410,7 +1551,7 @@ Proof.
     - inversion Ecs'; subst. split; [reflexivity|exact Htx].
     - inversion Ecs'; subst. split; [reflexivity|exact Htx]. }
   rewrite Hsp in *. rewrite Ecs in *.
-  apply (block_scalar_chunks_eof s F literal c explicit digit_first front cl n pz inds); auto.
+  apply (block_scalar_chunks_eof s F literal c explicit digit_first hc front cl n pz inds); auto.
   rewrite app_length in Ht4. cbn [length] in Ht4. lia.
 Qed.
 
@@ -1439,9 +1580,10 @@ Definition empty_lines (ks : list nat) (j : nat) (r' : list chr) : list bline :=
   map Blank (ks ++ match r' with [] => (match j with O => [] | S _ => [j] end) | _ => [] end).
 
 Theorem block_scalar_empty : forall (s : sc strin) F literal c (explicit : option nat) (digit_first : bool)
-    (ks : list nat) (j : nat) (r' : list chr) pz inds,
-  si_chars (sc_in s) = header literal c explicit digit_first ++ 10 :: blank_lines ks ++ sps j ++ r' ->
+    (hc : list chr) (ks : list nat) (j : nat) (r' : list chr) pz inds,
+  si_chars (sc_in s) = header literal c explicit digit_first ++ hc ++ 10 :: blank_lines ks ++ sps j ++ r' ->
   unroll_nb (sc_indents s) (sc_indent s) = (pz, inds) ->
+  header_tail hc -> (2 * length hc + 2 < F)%nat ->
   Forall (fun k => (k < F)%nat) (j :: ks) -> (S (length ks) < F)%nat ->
   hd0 r' <> 32 -> is_break (hd0 r') = false -> hd0 (blank_lines ks ++ sps j ++ r') <> 9 ->
   (* the end of the input, or a line that belongs to an enclosing collection *)
@@ -1454,10 +1596,9 @@ Theorem block_scalar_empty : forall (s : sc strin) F literal c (explicit : optio
   end ->
   yields literal (block_value literal c (empty_lines ks j r')) r' (scan_block_scalar str_ops F literal s).
 Proof.
-  intros s F literal c explicit digit_first ks j r' pz inds Hchars Hun HF HFl Hr Hrb Htab Hend Hind.
+  intros s F literal c explicit digit_first hc ks j r' pz inds Hchars Hun Hhc HFhc HF HFl Hr Hrb Htab Hend Hind.
   unfold empty_lines. rewrite block_value_blanks.
-  apply (scan_header _ s F literal c explicit digit_first (blank_lines ks ++ sps j ++ r') pz inds); auto.
-  { lia. }
+  apply (scan_header _ s F literal c explicit digit_first hc (blank_lines ks ++ sps j ++ r') pz inds); auto.
   { destruct explicit; tauto. }
   intros lk1 mh Hlk1 Hmh Hline.
   set (s1 := set_indent pz inds s).
